@@ -51,6 +51,11 @@ def run(ck):
         for k, v in enumerate(vs):
             add(f"sq{j}_{k}", ["w " + hx(v)] + [f"{o} $0" for o in ops] + ["snap"], ("seq", tuple(ops), v))
             ck.count(("seq", tuple(ops), v), kind="several components on one witness")
+    # donors for the width-1 forgery: truncate::<1> on x - 2k (same parity as x, high smaller by k)
+    f1 = []
+    for fi in range(2 if quick else 8):
+        x_ = rng.randrange(1 << 40) + 1000; k_ = 1 + rng.randrange(400)
+        add(f"f1d{fi}", ["w " + hx(x_ - 2 * k_), "trunc 1 $0", "snap"], ("f1donor", 1, x_ - 2 * k_)); f1.append((fi, x_, k_))
     impl, model = composer.run_both(ck, "\n".join(lines) + "\n", "c11")
     ck.sample({"program": progs["tr8_0"]}); ck.sample({"program": progs["de256_0"]})
     bad = composer.compare_programs(ck, progs, impl, model, "C11")
@@ -67,6 +72,28 @@ def run(ck):
         snap = Snapshot(impl[name])
         if not snap.gates: continue
         res = snap.results
+        if kind == "f1donor":
+            jobs.append((name, snap, None)); expect[name] = True; info[name] = ("trunc honest", 1, v)
+            # forged low for truncate::<1>(x): take the honest wires of x - 2k (high = high(x) - k), put x back on the input
+            # and its copy, claim low = (x mod 2) + 2k; the 1-bit check of low then needs lower = 2k, which the gate pinning
+            # lower to 0 forbids
+            fi, x_, k_ = [t_ for t_ in f1 if f"f1d{t_[0]}" == name][0]
+            g_ = snap.gates
+            try:
+                bi = next(i for i, (sel, w_) in enumerate(g_) if i >= 4 and sel[0] == 1 and sel[3] == R - 1 and sel[6] == 1 and w_[0] == w_[1] == w_[2])
+                top = g_[bi][1][0]; lower, recomposed = g_[bi + 1][1][0], g_[bi + 1][1][2]; low_w = g_[bi + 2][1][1]
+                if g_[bi + 1][1][1] != top or g_[bi + 2][1][0] != recomposed: raise StopIteration
+                bind = next(i for i, (sel, w_) in enumerate(g_) if sel[1] == 2 and sel[2] == 1 and sel[3] == R - 1 and sel[6] == 1 and w_[1] == low_w)
+                neg = next(i for i, (sel, w_) in enumerate(g_) if sel[1] == R - 1 and sel[3] == R - 1 and sel[5] == 0 and sel[6] == 1 and w_[0] == low_w and w_[1] == 0)
+            except (StopIteration, IndexError):
+                continue
+            L_ = (x_ % 2) + 2 * k_
+            w2 = list(snap.wits)
+            w2[FIRST] = x_; w2[g_[bind][1][2]] = x_; w2[low_w] = L_; w2[recomposed] = L_; w2[lower] = (L_ - w2[top]) % R; w2[g_[neg][1][2]] = (-L_) % R
+            nm = name + "_forged"
+            jobs.append((nm, snap, w2)); expect[nm] = False; info[nm] = ("truncate::<1>: forged low = (x mod 2) + 2k with lower = 2k", 1, x_)
+            ck.count(("f1forged", x_, k_), kind="template: width-1 forgery")
+            continue
         if kind == "seq":
             ok = all(v < (1 << int(o.split()[1])) for o in N if o.startswith("decomp") and int(o.split()[1]) <= 254)
             jobs.append((name, snap, None)); expect[name] = ok; info[name] = ("several components on one witness", 0, v)
@@ -132,9 +159,10 @@ def run(ck):
         got = res.get(nm, "?") is None
         if got != expect[nm]:
             what, N, v = info[nm]
-            base = nm.rsplit("_alias", 1)[0].rsplit("_flip", 1)[0].rsplit("_forced", 1)[0]
+            base = nm.rsplit("_alias", 1)[0].rsplit("_flip", 1)[0].rsplit("_forced", 1)[0].rsplit("_forged", 1)[0]
+            if base not in progs: base = next((b_ for b_ in progs if nm.startswith(b_)), nm)
             ck.violation(f"{what}: N={N} v={v:#x}: rows of the real layout satisfiable={got}, property requires {expect[nm]}",
-                         {"failing_input_found": True, "program": progs[base], "template": what, "N": N, "v": hx(v)},
+                         {"failing_input_found": True, "program": progs.get(base, [base]), "template": what, "N": N, "v": hx(v)},
                          key=f"{what}:N={N}")
     if bad and not ck.violations:
         name, d = bad[0]
